@@ -100,10 +100,20 @@ def r_C01ef(root):
     tab = {k.value: ast.unparse(v) for k, v in zip(d.keys, d.values) if isinstance(k, ast.Constant)}
     SPEC = {"ID": "str", "BOOL": "bool", "INT": "int", "FLOAT": "float", "STRICTFLOAT": "float", "STRING": "str", "NUMBER": "float", "BASETYPE": "str"}
     base_names = None
+    modseq = {n.targets[0].id: n.value for n in lang.body if isinstance(n, ast.Assign) and len(n.targets) == 1 and isinstance(n.targets[0], ast.Name) and isinstance(n.value, (ast.List, ast.Tuple))}
+    def _seq_names(x, depth=0):
+        """the rule objects a list / tuple display enumerates (module-level sequences and *unpacking followed)"""
+        got = []
+        for e in x.elts:
+            if isinstance(e, ast.Starred): e = e.value
+            if isinstance(e, ast.Name) and e.id in modseq and depth < 4: got += _seq_names(modseq[e.id], depth + 1)
+            elif isinstance(e, ast.Name): got.append(e.id)
+        return got
     for n in lang.body:
         if isinstance(n, ast.Assign) and ast.unparse(n.targets[0]) == "BASE_TYPE_RULES":
             for x in ast.walk(n.value):
-                if isinstance(x, ast.List): base_names = [e.id for e in x.elts if isinstance(e, ast.Name)]
+                if isinstance(x, (ast.List, ast.Tuple)) and not isinstance(getattr(x, "_parent", None), (ast.List, ast.Tuple)): base_names = _seq_names(x)
+                elif isinstance(x, ast.Name) and x.id in modseq and isinstance(getattr(x, "_parent", None), ast.comprehension): base_names = _seq_names(modseq[x.id])
     if not base_names: raise AnalysisError("BASE_TYPE_RULES table not found")
     for nm in base_names:
         inst += 1; okc = tab.get(nm) == SPEC.get(nm)
